@@ -183,6 +183,7 @@ def check(ctx, report):
             fb = args[4] if len(args) > 4 else next((k.value for k in cl.keywords if k.arg == 'fallback_class'), None)
             if not (isinstance(fb, ast.Constant) and fb.value is None):
                 report.add('C19.R1', ap.construct + '@fallback', 'the fallback parse re-enters _parse_string_until_separator with a fallback class again: unbounded mutual recursion')
+    function_recursion(ctx, report)
     # ---- R2
     pb = model.cls('ParserBinary')
     na = pb.methods.get('_parse_numeric_array')
@@ -724,3 +725,61 @@ def linear_scans_in_loops(ctx, report):
                                        'every pass of the loop walks the whole list %s that the same loop keeps appending to: quadratic work in the number of parsed items' % it.id)
     report.count('C19.R6', n_loops)
     report.floor('C19.R6', 30, 'loops in parse functions')
+
+
+# ---- R8: recursion between functions --------------------------------------------------------------------------------------------
+
+def function_recursion(ctx, report, RULE='C19.R8'):
+    """the call graph of the parse side (methods called through self / cls resolved through the static MRO, module level functions):
+    a function that can reach itself recurses once per item / octet of its input unless the cycle is cut by an argument that
+    switches the recursive branch off (the fallback parse passes ``None`` as fallback class - C19.R1 checks that cut).  Serialiser
+    functions (Markdown / JSON traversal follows the nesting of the object, not the length of an input) are not parse side."""
+    model = ctx.model
+    report.rule(RULE, 'no function on the parse side reaches itself through calls (recursion depth grows with the input)')
+    funcs = [f for f in model.functions() if not f.module.external]
+    by_node = {id(f.node): f for f in funcs}
+
+    def callees(f):
+        out = []
+        for n in ast.walk(f.node):
+            if not isinstance(n, ast.Call):
+                continue
+            if isinstance(n.func, ast.Attribute) and isinstance(n.func.value, ast.Name) and n.func.value.id in ('self', 'cls') and f.cls is not None:
+                g = f.cls.resolve(n.func.attr)
+                if g is not None and not g.module.external:
+                    out.append(g)
+            elif isinstance(n.func, ast.Name):
+                r = model.resolve_name(f.module, n.func.id)
+                g = by_node.get(id(getattr(r, 'node', None)))
+                if g is not None:
+                    out.append(g)
+        return out
+    graph = {id(f): (f, callees(f)) for f in funcs}
+    CUT = {('ParserText._apply_item_class', 'ParserText._parse_string_until_separator')}     # cut by fallback_class=None (C19.R1)
+
+    def parse_side(f):
+        n = f.name.lstrip('_')
+        return not (n.startswith(('markdown', 'as_markdown', 'json', 'asdict', 'compose', 'get_ordered')) or f.name in ('_asdict', '_as_markdown'))
+    seen_cycles = set()
+    for f in funcs:
+        if not parse_side(f):
+            continue
+        report.count(RULE)
+        # depth first search for a path back to f
+        stack, visited = [(f, [f])], set()
+        while stack:
+            g, path = stack.pop()
+            for h in graph[id(g)][1]:
+                if (g.qualname, h.qualname) in CUT or (h.qualname, g.qualname) in CUT:
+                    continue
+                if h is f:
+                    key = tuple(sorted(x.qualname for x in path))
+                    if key not in seen_cycles and all(parse_side(x) for x in path):
+                        seen_cycles.add(key)
+                        report.add(RULE, '%s@recursion' % f.construct, 'the function reaches itself through %s: one stack frame per round, so the recursion depth is set by the '
+                                   'input (a list of a thousand items ends in RecursionError)' % ' > '.join(x.qualname for x in path + [f]))
+                    continue
+                if id(h) not in visited and len(path) < 6:
+                    visited.add(id(h))
+                    stack.append((h, path + [h]))
+    report.floor(RULE, 400, 'functions of the parse side')
